@@ -85,7 +85,7 @@ PROPS = {
                         "assumptions": ["independence from the initial buffer content is a theorem (bytes_depend_only_on_tree); reuse after failure and pooling are compared by the wd/wr/wpool streams"]}),
     "C12": writer_prop("C12", ["sticky_write", "sticky_element", "sticky_field", "sticky_end", "sticky_fieldAny", "sticky_begin",
                                 "sticky_queries", "fail_keeps_first", "fail_records", "write_func_error_sticky", "free_safe", "after_free_sticky",
-                                "reset_clean", "closed_handle", "double_end", "no_panic", "no_panic_from"], ["c12"],
+                                "reset_clean", "closed_handle", "double_end", "no_panic", "no_panic_from", "err_persists", "sticky_program"], ["c12"],
                        {"assumptions": ["partial: build_ok_parses is a theorem for the programs of value trees (C01.written_tree_reads_back) and Copy/Merge programs (C16.copy_preserves); for arbitrary misuse programs it is decided by the differential stream and the Go-side oracle; no_panic covers the whole alphabet incl. Copy/Merge from arbitrary bytes",
                                         "calls through a handle kind the Go type system rejects are outside the alphabet (bad-op)"]}),
     "C16": writer_prop("C16", ["common_field_unchanged", "absent_field_zero", "order_irrelevant", "copy_preserves"], ["c16"],
